@@ -53,7 +53,8 @@ def main():
         if not args.no_build:
             common.build_all(ctx, features=getattr(mod, "HARNESS_FEATURES", [[]]),
                              release=(tier == "thorough" and getattr(mod, "WANT_RELEASE", False))
-                             or getattr(mod, "ALWAYS_RELEASE", False))
+                             or getattr(mod, "ALWAYS_RELEASE", False),
+                             cli=getattr(mod, "NEEDS_CLI", False))
         if args.replay:
             rc = mod.replay(ctx, args.replay)
             return rc
